@@ -68,7 +68,7 @@ func genCliGeneral(v6 bool) *rapid.Generator[cliScenario] {
 		for i := 0; i < nd; i++ {
 			d := cliDeliver{At: evTick(rapid.IntRange(0, horizon).Draw(t, "at")), Xid: rapid.IntRange(0, 2).Draw(t, "dxid"), Typ: rapid.SampledFrom(types).Draw(t, "typ"), Serial: serial}
 			serial++
-			d.Kind = rapid.SampledFrom([]int{dgGood, dgGood, dgGood, dgGood, dgWrongXid, dgWrongHW, dgWrongOp, dgRelayType, dgGarbage, dgEmpty}).Draw(t, "kind")
+			d.Kind = rapid.SampledFrom([]int{dgGood, dgGood, dgGood, dgGood, dgGood, dgGood, dgWrongXid, dgWrongHW, dgWrongOp, dgRelayType, dgGarbage, dgEmpty, dgHWEmpty, dgHWPrefix, dgHWExtended, dgHWLong}).Draw(t, "kind")
 			d.Op = rapid.SampledFrom([]uint8{1, 3, 0, 255, 2}).Draw(t, "op")
 			d.HType = rapid.SampledFrom([]uint8{0, 0, 0, 1, 6, 32, 255}).Draw(t, "htype")
 			d.PadTo = rapid.SampledFrom([]int{0, 0, 0, 0, 576, 1499, 1500}).Draw(t, "padto")
@@ -92,6 +92,7 @@ func genCliGeneral(v6 bool) *rapid.Generator[cliScenario] {
 			sc.DoubleClose = rapid.Bool().Draw(t, "double")
 		}
 		sc.LogDropped = rapid.IntRange(0, 3).Draw(t, "logdropped") == 0
+		sc.Dest = rapid.SampledFrom([]int{0, 0, 1, 2, 3}).Draw(t, "dest")
 		return sc
 	})
 }
@@ -100,23 +101,60 @@ func genCliGeneral(v6 bool) *rapid.Generator[cliScenario] {
 // (per-transaction buffer partly full, exactly full, overfull), then is released.
 func genCliBlocking(v6 bool) *rapid.Generator[cliScenario] {
 	return rapid.Custom(func(t *rapid.T) cliScenario {
-		sc := cliScenario{V6: v6, T: 16 * 64, Tries: rapid.IntRange(1, 2).Draw(t, "tries"), CloseAt: -1}
+		// ticks of 1 ms, 20 ms or 1 s: the matcher is held for milliseconds up to a quarter of an hour (virtual time)
+		sc := cliScenario{V6: v6, T: 16 * 64, Tries: rapid.IntRange(1, 2).Draw(t, "tries"), CloseAt: -1, TickNs: rapid.SampledFrom([]int64{1e6, 1e6, 20e6, 1e9}).Draw(t, "tickns")}
 		types := wantTypes(v6)
 		c := cliCall{Start: 0, Xid: rapid.IntRange(0, 2).Draw(t, "xid"), Matcher: 4, Want: rapid.SampledFrom(types).Draw(t, "want"), CancelAt: -1, Deadline: -1}
 		n := rapid.IntRange(1, 12).Draw(t, "n")
+		// the position of the first datagram the matcher accepts is drawn, so that "the 7th" (the one the receive
+		// loop holds while the buffer of 5 is full) and later positions are as likely as the first
+		firstOK := rapid.IntRange(0, n).Draw(t, "firstok") // n: none
+		other := types[0]
+		if other == c.Want {
+			other = types[1]
+		}
 		at := 1
 		for i := 0; i < n; i++ {
-			d := cliDeliver{At: evTick(at), Xid: c.Xid, Typ: rapid.SampledFrom(types).Draw(t, "typ"), Serial: i + 1, Kind: dgGood}
-			if rapid.IntRange(0, 5).Draw(t, "noise") == 0 {
-				d.Kind = rapid.SampledFrom([]int{dgWrongXid, dgGarbage, dgWrongHW}).Draw(t, "nk")
+			d := cliDeliver{At: evTick(at), Xid: c.Xid, Typ: other, Serial: i + 1, Kind: dgGood}
+			if i == firstOK || (i > firstOK && rapid.Bool().Draw(t, "later")) {
+				d.Typ = c.Want
+			}
+			if i != firstOK && rapid.IntRange(0, 5).Draw(t, "noise") == 0 {
+				d.Kind = rapid.SampledFrom([]int{dgWrongXid, dgGarbage, dgWrongHW, dgHWEmpty}).Draw(t, "nk")
 			}
 			sc.Dels = append(sc.Dels, d)
 			at = d.At + rapid.SampledFrom([]int{0, 4, 8, 40}).Draw(t, "gap")
 		}
-		c.ReleaseAt = evTick(at + rapid.SampledFrom([]int{4, 120, 400}).Draw(t, "hold"))
+		c.ReleaseAt = evTick(at + rapid.SampledFrom([]int{4, 120, 400, 900}).Draw(t, "hold"))
 		if c.ReleaseAt >= sc.T {
 			c.ReleaseAt = evTick(sc.T - 8)
 		}
+		sc.Calls = []cliCall{c}
+		return sc
+	})
+}
+
+// genCliBlockedAcross: one call whose matcher is held on its first candidate PAST one or more try deadlines while
+// further datagrams of its transaction queue up behind it (most of them ones the matcher will reject), then
+// released. Checked by cmpCliLoose.
+func genCliBlockedAcross(v6 bool) *rapid.Generator[cliScenario] {
+	return rapid.Custom(func(t *rapid.T) cliScenario {
+		sc := cliScenario{V6: v6, T: 16 * rapid.SampledFrom([]int{4, 8}).Draw(t, "T16"), Tries: rapid.IntRange(1, 3).Draw(t, "tries"), CloseAt: -1}
+		types := wantTypes(v6)
+		c := cliCall{Start: 0, Xid: rapid.IntRange(0, 2).Draw(t, "xid"), Matcher: 4, Want: types[0], CancelAt: -1, Deadline: -1}
+		n := rapid.IntRange(1, 9).Draw(t, "n")
+		firstOK := rapid.SampledFrom([]int{n, n, n, 0, 1, 5, 6, 7}).Draw(t, "firstok")
+		at := 1
+		for i := 0; i < n; i++ {
+			d := cliDeliver{At: evTick(at), Xid: c.Xid, Typ: types[1], Serial: i + 1, Kind: dgGood}
+			if i == firstOK {
+				d.Typ = c.Want
+			}
+			sc.Dels = append(sc.Dels, d)
+			at = d.At + rapid.SampledFrom([]int{0, 4, 8}).Draw(t, "gap")
+		}
+		k := rapid.IntRange(1, 3).Draw(t, "deadlines")
+		c.ReleaseAt = evTick(max(at, sc.T*((1<<uint(k))-1)) + rapid.IntRange(1, sc.T-8).Draw(t, "past"))
 		sc.Calls = []cliCall{c}
 		return sc
 	})
@@ -150,6 +188,12 @@ func cliNonTrivial(sc cliScenario) (bool, []string) {
 				cls = append(cls, "buffer overfull")
 			}
 		}
+	}
+	if sc.blockedAcrossDeadline() {
+		cls = append(cls, "matcher held past a try deadline")
+	}
+	if sc.Dest != 0 {
+		cls = append(cls, "other destination (port / broadcast / zoned address)")
 	}
 	if overlap {
 		cls = append(cls, "overlapping calls")
@@ -200,8 +244,11 @@ func TestC10_Rapid(t *testing.T) {
 	curT = t
 	c10.rapidCheck(t, rapid.Custom(func(rt *rapid.T) cliScenario {
 		v6 := rapid.Bool().Draw(rt, "v6")
-		if rapid.IntRange(0, 3).Draw(rt, "class") == 0 {
+		switch rapid.IntRange(0, 7).Draw(rt, "class") {
+		case 0, 1:
 			return genCliBlocking(v6).Draw(rt, "blocking")
+		case 2:
+			return genCliBlockedAcross(v6).Draw(rt, "blocked-across")
 		}
 		return genCliGeneral(v6).Draw(rt, "general")
 	}))
@@ -246,9 +293,13 @@ func TestC11_Rapid(t *testing.T) {
 	curT = t
 	c11.rapidCheck(t, rapid.Custom(func(rt *rapid.T) cliScenario {
 		v6 := rapid.Bool().Draw(rt, "v6")
-		switch rapid.IntRange(0, 2).Draw(rt, "class") {
-		case 0:
+		switch rapid.IntRange(0, 5).Draw(rt, "class") {
+		case 0, 1:
 			return genCliStreams(v6).Draw(rt, "streams")
+		case 2:
+			return genCliBlockedAcross(v6).Draw(rt, "blocked-across")
+		case 3:
+			return genCliBlocking(v6).Draw(rt, "blocking")
 		}
 		return genCliGeneral(v6).Draw(rt, "general")
 	}))
@@ -261,7 +312,7 @@ var c12 = cliCheck("C12", "schedule",
 	aspWrites|aspTiming)
 
 func c12Scenario(v6 bool, tickNs int64, tries, variant, respTry, respPos int) cliScenario {
-	sc := cliScenario{V6: v6, TickNs: tickNs, T: 16, Tries: tries, CloseAt: -1}
+	sc := cliScenario{V6: v6, TickNs: tickNs, T: 16, Tries: tries, CloseAt: -1, Dest: (variant + tries + 4) % 4}
 	c := cliCall{Start: 0, Xid: variant % 3, Variant: variant, Matcher: 1, Want: wantTypes(v6)[0], CancelAt: -1, Deadline: -1}
 	sc.Calls = []cliCall{c}
 	if respTry >= 0 {
@@ -322,6 +373,7 @@ func TestC12_Rapid(t *testing.T) {
 		}
 		T := rapid.SampledFrom([]int64{1e6, 10e6, 250e6, 1e9, 5e9, 48e6}).Draw(rt, "T")
 		sc := c12Scenario(rapid.Bool().Draw(rt, "v6"), T/16, tries, rapid.IntRange(0, 3).Draw(rt, "variant"), k, rapid.IntRange(0, 2).Draw(rt, "pos"))
+		sc.Dest = rapid.IntRange(0, 3).Draw(rt, "dest")
 		if tries < 0 && rapid.Bool().Draw(rt, "cancel") {
 			sc.Calls[0].CancelAt = evTick(rapid.IntRange(1, 16*40).Draw(rt, "cancelat"))
 		}
